@@ -91,6 +91,8 @@ func (sc *Sched) Run() {
 		t := t
 		go func() {
 			<-t.wake
+			Own()
+			defer Disown()
 			defer sc.finish(t)
 			t.f()
 		}()
